@@ -137,5 +137,5 @@ contract(
         'len(result._packed) == 4',
     ],
     notes=['named communities and the 0x / plain-integer forms: only their exception freedom is under contract (int(value, 16) is not modelled: that branch is out of reach and reported)'],
-    canaries=[('if suffix_int > Community.MAX:', 'if suffix_int > Community.MAX + 1:')],
+    canaries=[('if suffix_int > 0xFFFF:', 'if suffix_int > 0xFFFF + 1:')],
 )
